@@ -5,6 +5,17 @@ From Coq Require Import List Arith ZArith.
 From OV Require Import Base.Panic Base.Arith.
 Import ListNotations.
 
+(* ======================================================================== C03_r2c2.v.txt *)
+(* ---- tie of the model to the source of this run (package r2c2): gen/SrcMatNorms.v is regenerated from
+   src/matrix/functions.rs (impl Matrix<f64>: norm_1, norm_inf, norm_p, norm_frob, norm_max) by driver/rust2coq.py on every
+   check run; Proofs/SrcEqMatNorms.v proves each equal to its model of Model/MatNorms.v for every arithmetic with a square
+   root and every libm powf (a parameter); norm_frob = mnorm_frob under the model's stated reading of powf(., 2), powf(., 1/2). *)
+From OV Require Proofs.SrcEqMatNorms.
+Theorem model_is_source_C03_MatNorms : forall (F : SArith) (powf : F -> F -> F), @SrcEqMatNorms.model_is_source_MatNorms F powf.
+Proof. intros F powf. exact (SrcEqMatNorms.model_is_source_MatNorms_lemma powf). Qed.
+Check model_is_source_C03_MatNorms : forall (F : SArith) (powf : F -> F -> F), @SrcEqMatNorms.model_is_source_MatNorms F powf.
+Print Assumptions model_is_source_C03_MatNorms.
+
 (* ======================================================================== C08_r2c2.v.txt *)
 (* ---- tie of the model to the source of this run (package r2c2): gen/SrcIter.v is regenerated from src/sparse.rs by
    driver/rust2coq.py on every check run; Proofs/SrcEqIter.v proves ERASURE -- each regenerated Krylov solver equals the
@@ -26,6 +37,16 @@ Theorem model_is_source_C09_Iter : forall F : SArith, @SrcEqIter.model_is_source
 Proof. intros F. exact SrcEqIter.model_is_source_Iter_lemma. Qed.
 Check model_is_source_C09_Iter : forall F : SArith, @SrcEqIter.model_is_source_Iter F.
 Print Assumptions model_is_source_C09_Iter.
+
+(* ======================================================================== C15_r2c2.v.txt *)
+(* ---- tie of the model to the source of this run (package r2c2): gen/SrcVectorOps.v is regenerated from
+   src/vector/{mod,operations,functions}.rs (find, resize, Index, clear, swap, push, push_front, insert, pop, size, new, zeros,
+   ones) by driver/rust2coq.py on every check run; Proofs/SrcEqVectorOps.v proves each equal to its model of Model/Vector.v. *)
+From OV Require Proofs.SrcEqVectorOps.
+Theorem model_is_source_C15_VectorOps : forall A : Arith, @SrcEqVectorOps.model_is_source_VectorOps A.
+Proof. intros A. exact SrcEqVectorOps.model_is_source_VectorOps_lemma. Qed.
+Check model_is_source_C15_VectorOps : forall A : Arith, @SrcEqVectorOps.model_is_source_VectorOps A.
+Print Assumptions model_is_source_C15_VectorOps.
 
 (* ======================================================================== C16_r2c2.v.txt *)
 (* ---- tie of the model to the source of this run (package r2c2): gen/SrcParDot.v is regenerated from
